@@ -14,7 +14,7 @@ CONSTANTS
   Deltas <- D1
   OtherKinds <- NoOther
   Strict = FALSE
-  ExK = 4
+  ExK = 2
   D = 1
 INIT Init
 NEXT NextL
